@@ -74,6 +74,28 @@ theorem parse_eq (e : Raw) :
     simp [fieldPart, bodyOf, hb, takeAll, h1, h2]
     rfl
 
+/-- the value `parse` returns, as a term -/
+def parsedOf (e : Raw) : Parsed :=
+  { input := e.input, offset := e.offset, pushnum := e.pushnum, stutter := e.stutter,
+    payload := {
+      body := bodyOf e.payload
+      contentEncoding := (takeAll (collectFields (fieldPart e.payload) []).1).contentEncoding
+      contentType := (takeAll (collectFields (fieldPart e.payload) []).1).contentType
+      delegate := (takeAll (collectFields (fieldPart e.payload) []).1).delegate
+      duplicateField := (collectFields (fieldPart e.payload) []).1.any (fun kv => decide (kv.2.length > 1))
+      incompleteField := (collectFields (fieldPart e.payload) []).2
+      metadata := (takeAll (collectFields (fieldPart e.payload) []).1).metadata
+      metaprotocol := (takeAll (collectFields (fieldPart e.payload) []).1).metaprotocol
+      parents := (takeAll (collectFields (fieldPart e.payload) []).1).parents
+      pointer := (takeAll (collectFields (fieldPart e.payload) []).1).pointer
+      properties := (takeAll (collectFields (fieldPart e.payload) []).1).properties
+      propertyEncoding := (takeAll (collectFields (fieldPart e.payload) []).1).propertyEncoding
+      rune := (takeAll (collectFields (fieldPart e.payload) []).1).rune
+      unrecognizedEvenField :=
+        (takeAll (collectFields (fieldPart e.payload) []).1).rest.any (fun kv => evenKey kv.1) } }
+
+theorem parse_eq' (e : Raw) : parse e = .ok (parsedOf e) := parse_eq e
+
 /-- what is left under key `k` after the ten takes, as a function of the initial values `v` -/
 def remaining (v : Bytes → List Bytes) (k : Bytes) : List Bytes :=
   if k = [tagRune] then (v [tagRune]).tail
